@@ -12,6 +12,9 @@ git -C /repo worktree remove --force /tmp/wt-$c >/dev/null 2>&1
 /verif/mkwt.sh $c >/dev/null || { echo "cannot create confirm worktree"; exit 2; }
 w=/tmp/wt-$c
 cp -a "$src/." "$w/out/"
+# demos sometimes hard-code the seeder's own worktree path: point them at the confirmation worktree instead
+grep -rlI "/tmp/wt-$name" "$w/out" 2>/dev/null | xargs -r sed -i "s|/tmp/wt-$name|$w|g"
+rm -f "$w/out/demo"
 cd "$w"
 run_demo() { ( cd "$w" && if [ -x out/run_demo.sh ]; then timeout 600 out/run_demo.sh; elif [ -f out/run_demo.sh ]; then timeout 600 bash out/run_demo.sh; else echo "no run_demo.sh"; exit 99; fi ) >"$w/out/demo.$1.log" 2>&1; echo $?; }
 base_rc=$(run_demo base)
